@@ -6,6 +6,9 @@ package legacy
 import (
 	"net/http"
 	"net/url"
+	"strings"
+
+	"github.com/getkin/kin-openapi/openapi3"
 )
 
 //verif:harness id=C10 tier=quick,thorough witness=end bounds="legacy router over the 6 template families of C09 x method = any 1-3 byte string over [A-Z] or one of the nine standard methods x every request path '/'+ up to 3 bytes over {/,a,b,c,{,}}; assertion = no panic"
@@ -36,5 +39,42 @@ func verifH_C10_legacy_router() {
 		bs[i] = verifNondetByteIn("p", "/abc{}")
 	}
 	_, _, _ = router.FindRoute(&http.Request{Method: method, URL: &url.URL{Path: string(bs)}})
+	verifReach("end")
+}
+
+//verif:harness id=C10 tier=quick,thorough witness=end,router bounds="legacy router, templates the path tree cannot lead to or that hostile requests can spell literally: /a{x}b, /{x}.j, /a/{x}.j, /{x}{y}, next to /a; nine methods; request path = the template text itself, the template filled in, prefixes and neighbours of both (14 concrete paths per family): FindRoute returns a route or an error, never neither, and does not panic"
+func verifH_C10_legacy_literal_templates() {
+	fams := [][]string{{"/a{x}b", "/a"}, {"/{x}.j", "/a"}, {"/a/{x}.j"}, {"/{x}{y}", "/a"}, {"/a/{x}.j", "/a/{x}"}}
+	templates := fams[verifChoose("family", len(fams))]
+	d := "d"
+	paths3 := openapi3.NewPathsWithCapacity(len(templates))
+	for i, t := range templates {
+		resps := openapi3.NewResponsesWithCapacity(1)
+		resps.Set("200", &openapi3.ResponseRef{Value: &openapi3.Response{Description: &d}})
+		op := &openapi3.Operation{OperationID: "get" + string(rune('A'+i)), Responses: resps}
+		// every {name} of the template, wherever it stands in its segment
+		for rest := t; ; {
+			a := strings.IndexByte(rest, '{')
+			if a < 0 {
+				break
+			}
+			b := strings.IndexByte(rest[a:], '}')
+			op.Parameters = append(op.Parameters, &openapi3.ParameterRef{Value: &openapi3.Parameter{Name: rest[a+1 : a+b], In: "path", Required: true, Schema: &openapi3.SchemaRef{Value: &openapi3.Schema{Type: &openapi3.Types{"string"}}}}})
+			rest = rest[a+b+1:]
+		}
+		paths3.Set(t, &openapi3.PathItem{Get: op})
+	}
+	doc := &openapi3.T{OpenAPI: "3.0.0", Info: &openapi3.Info{Title: "t", Version: "1"}, Paths: paths3}
+	router, err := NewRouter(doc)
+	if err != nil {
+		return
+	}
+	verifReach("router")
+	method := []string{"GET", "POST", "PUT", "DELETE", "HEAD", "OPTIONS", "PATCH", "TRACE", "CONNECT"}[verifChoose("method", 9)]
+	t := templates[0]
+	paths := []string{t, t + "/", "/" + t, t[:len(t)-1], "/avb", "/v.j", "/a/v.j", "/a/.j", "/vw", "/a", "/a/", "/a/v", "/{x}", "/a/{x}"}
+	p := paths[verifChoose("path", len(paths))]
+	route, _, ferr := router.FindRoute(&http.Request{Method: method, URL: &url.URL{Path: p}})
+	verifAssert((route != nil) != (ferr != nil), "C10 legacy: FindRoute returns a route or an error, never neither and never both")
 	verifReach("end")
 }
